@@ -324,7 +324,13 @@ pub fn param_lists(max: usize) -> Vec<Vec<String>> {
 
 pub fn run(tier: Tier) -> i32 {
     let ctx = Ctx::new("C09", tier, "exploration");
-    let lists = param_lists(tier.pick(2, 3));
+    // quick: all ordered lists of <=2 parameters plus the lists of 3 that start with one of the first four; thorough: all of <=3
+    let mut lists = param_lists(2);
+    for l in param_lists(3) {
+        if l.len() == 3 && (tier == Tier::Thorough || PARAMS[..4].contains(&l[0].as_str())) {
+            lists.push(l);
+        }
+    }
     let mut cases = Vec::new();
     for flags in 0..64u32 {
         for marketing_set in 0..2usize {
